@@ -38,18 +38,18 @@ impl Op {
     pub fn to_json(&self) -> Value {
         match self {
             Op::Sign { key, msg, stream, mode, norm_rejects, compress_fails } => json!({
-                "op": "sign", "key": key, "msg_hex": hex(msg), "stream": stream,
+                "op": "sign", "key": key, "msg_hex": crate::rng::msg_hex(msg), "stream": stream,
                 "mode": mode.as_ref().map(|m| m.to_json()).unwrap_or(json!({"kind": "E5"})),
                 "norm_rejects": norm_rejects, "compress_fails": compress_fails}),
             Op::Keygen { seed, ambient } => json!({"op": "keygen", "seed_hex": hex(seed), "ambient": ambient}),
-            Op::Verify { key, msg, sig } => json!({"op": "verify", "key": key, "msg_hex": hex(msg), "sig_hex": hex(sig)}),
+            Op::Verify { key, msg, sig } => json!({"op": "verify", "key": key, "msg_hex": crate::rng::msg_hex(msg), "sig_hex": hex(sig)}),
         }
     }
     pub fn from_json(v: &Value) -> Option<Op> {
         Some(match v.get("op")?.as_str()? {
             "sign" => Op::Sign {
                 key: v.get("key")?.as_u64()? as usize,
-                msg: unhex(v.get("msg_hex")?.as_str()?)?,
+                msg: crate::rng::msg_unhex(v.get("msg_hex")?.as_str()?)?,
                 stream: v.get("stream")?.as_u64()?,
                 mode: {
                     let m = v.get("mode")?;
@@ -68,7 +68,7 @@ impl Op {
             },
             "verify" => Op::Verify {
                 key: v.get("key")?.as_u64()? as usize,
-                msg: unhex(v.get("msg_hex")?.as_str()?)?,
+                msg: crate::rng::msg_unhex(v.get("msg_hex")?.as_str()?)?,
                 sig: unhex(v.get("sig_hex")?.as_str()?)?,
             },
             _ => return None,
